@@ -679,17 +679,45 @@ def step (w : World) : Op → World
 
 def run (w : World) (ops : List Op) : World := ops.foldl step w
 
-/-- every object released with its normal free / cancel call: HTTP requests, then the connection attempts,
-accepts, buffered readers (cancel the wait, free) and writers, and the reads and writes that are left -/
-def teardownOps (w : World) : List Op :=
-  w.https.map (.httpCancel ·.cookie) ++
-  (w.conns.filter (fun k => !connOwned w k.cookie)).map (.connectCancel ·.cookie) ++
-  w.accepts.map (.acceptCancel ·.cookie) ++
-  w.readers.flatMap (fun r => [.nbrCancel r.id, .nbrFree r.id]) ++
-  w.writers.map (.nbwFree ·.id) ++
-  (w.reads.filter (fun r => !readOwned w r.cookie)).map (.readCancel ·.cookie) ++
-  (w.writes.filter (fun r => !writeOwned w r.cookie)).map (.writeCancel ·.cookie)
+/-- the next object to release with its normal free / cancel call: HTTP requests first, then connection
+attempts, accepts, buffered readers (cancel the wait, then free) and writers, then the reads and writes that
+are left (those are then not owned by a reader / writer); `none` when there is no object left -/
+def nextRelease (w : World) : Option Op :=
+  match w.https with
+  | h :: _ => some (.httpCancel h.cookie)
+  | [] =>
+  match w.conns with
+  | k :: _ => some (.connectCancel k.cookie)
+  | [] =>
+  match w.accepts with
+  | a :: _ => some (.acceptCancel a.cookie)
+  | [] =>
+  match w.readers with
+  | r :: _ => some (if r.readCookie.isSome || r.immediate then .nbrCancel r.id else .nbrFree r.id)
+  | [] =>
+  match w.writers with
+  | x :: _ => some (.nbwFree x.id)
+  | [] =>
+  match w.reads with
+  | r :: _ => some (.readCancel r.cookie)
+  | [] =>
+  match w.writes with
+  | r :: _ => some (.writeCancel r.cookie)
+  | [] => none
 
-def teardown (w : World) : World := run w (teardownOps w)
+/-- an upper bound on the number of release calls still needed -/
+def objects (w : World) : Nat :=
+  w.https.length + w.conns.length + w.accepts.length + 2 * w.readers.length + w.writers.length +
+  w.reads.length + w.writes.length
+
+def teardownN : Nat → World → World
+  | 0, w => w
+  | n + 1, w =>
+    match nextRelease w with
+    | some op => teardownN n (step w op)
+    | none => w
+
+/-- every object released with its normal free / cancel call -/
+def teardown (w : World) : World := teardownN (objects w) w
 
 end Percival.Model.AllocFail
